@@ -49,6 +49,16 @@ CHECKS = {
         "configuration rotated by VERIF_SEED + all accrual/sequence configurations) / 7 (thorough, all 192+16).",
    technique="explicit-state BFS of the implementation with a reference model (replay + fork snapshots)",
    ref="3/C18"),
+ "C19": dict(cat="exploration",
+   text="Exhaustive enumeration: every parameter dictionary with <=2 keys over a hazard-oriented value alphabet "
+        "(+ nested values of depth <=2, special parameter names) through the real encoder/decoder with a "
+        "type-exact equality oracle; every splitting with <=2 (quick) / <=3 (thorough) cut points plus the "
+        "single-byte split of ordered message triples (with and without byte payloads) through the real "
+        "BCPClientSocket.read_message and transport receive loop, dispatch order observed at the BCP interface.",
+   note="Trusted: virtual loop, asyncio.StreamReader. Bounded by the value alphabet and message menu in props/c19.py; "
+        "NaN excluded.",
+   technique="exhaustive enumeration of inputs and read splittings executed on the implementation",
+   ref="3/C19"),
 }
 NOT_YET = "check not built yet in this revision (planned, see DESIGN.md section 7)"
 
